@@ -54,11 +54,12 @@ VARIABLES
   s7,        \* set of nodes on which the signature of known finding S7 occurred
   vrep,      \* node -> time at which it was last handed a replication reply from a voter of its configuration
   rlast,     \* <<node, voter>> -> line of the last replication reply from that voter handed to the node
+  rtime,     \* <<node, voter>> -> time of the last replication reply from that voter handed to the node
   pgr,       \* <<node, send time, term>> -> voters whose prevote grants of that round were handed to the node
   bad        \* set of violation records
 
 vars == <<l, meta, dur, pstate, maxterm, votes, applied, cursor, leaders, lfirst, committed, cterm,
-          reqs, hpre, stat, inv, wdone, rdone, retd, dead, mtrack, mwait, finals, healed, s5, hl, fsmc, taken, sopen, isidx, lastae, s7, vrep, rlast, pgr, bad>>
+          reqs, hpre, stat, inv, wdone, rdone, retd, dead, mtrack, mwait, finals, healed, s5, hl, fsmc, taken, sopen, isidx, lastae, s7, vrep, rlast, rtime, pgr, bad>>
 
 -----------------------------------------------------------------------------
 Ev == Trace[l]
@@ -513,8 +514,16 @@ C17_Refusal ==
     LET n == Ev.node
         ti == inv[Ev.op].e.t
         last == Get(vrep, n, -1) IN
-    IF Cardinality(Voters) > 1 /\ (last = -1 \/ last + meta.lease_us <= ti)
-      THEN {V("C17", "LeaseReadWithoutRecentVoterReply", <<Ev.op, n, last, ti>>)} ELSE {}
+    (IF Cardinality(Voters) > 1 /\ (last = -1 \/ last + meta.lease_us <= ti)
+      THEN {V("C17", "LeaseReadWithoutRecentVoterReply", <<Ev.op, n, last, ti>>)} ELSE {})
+    \cup
+    \* ... and by a MAJORITY: the round that renewed the lease was answered by voters that form a
+    \* majority with the node; under the assumption (every message takes less than election timeout
+    \* minus lease duration) all its answers, and the read's invocation, lie within two election
+    \* timeouts of each other
+    (LET heard == {v \in Voters \ {n} : Get(rtime, <<n, v>>, -1) # -1 /\ Get(rtime, <<n, v>>, -1) + 2 * meta.et_us > ti} IN
+     IF "et_us" \in DOMAIN meta /\ n \in Voters /\ Cardinality(Voters) > 1 /\ (Cardinality(heard) + 1) * 2 <= Cardinality(Voters)
+       THEN {V("C17", "LeaseReadWithoutRecentVoterMajority", <<Ev.op, n, heard, ti>>)} ELSE {})
 
 -----------------------------------------------------------------------------
 (* C14 / C18 -- aborts, panics, failed restarts *)
@@ -532,6 +541,8 @@ C14_Abort ==
   \cup (IF Is("log_replay") /\ Has("err") THEN {V("C14", "ReplayFailed", <<Ev.node, Ev.err>>)} ELSE {})
 C18_Panic ==
   (IF Is("panic") THEN {V("C18", "Panic", <<Ev.msg>>)} ELSE {})
+  \* a node on which Stop has returned stays stopped until it is started again (4 = Shutdown)
+  \cup (IF Is("stopcheck") /\ Ev.state # 4 THEN {V("C18", "StoppedNodeNotShutdown", <<Ev.node, Ev.state>>)} ELSE {})
   \cup (IF Is("abort") THEN {V("C18", "Abort", <<Ev.why>>)} ELSE {})
 
 
@@ -825,7 +836,7 @@ Init ==
   /\ dur = <<>> /\ pstate = <<>> /\ maxterm = <<>> /\ votes = {} /\ applied = <<>> /\ cursor = <<>>
   /\ leaders = <<>> /\ lfirst = {} /\ committed = <<>> /\ cterm = <<>> /\ reqs = <<>> /\ hpre = <<>> /\ stat = <<>>
   /\ inv = <<>> /\ wdone = {} /\ rdone = {} /\ retd = {} /\ dead = {} /\ mtrack = <<>> /\ mwait = <<>>
-  /\ finals = <<>> /\ healed = FALSE /\ s5 = FALSE /\ hl = NoHealthy /\ fsmc = <<>> /\ taken = {} /\ sopen = <<>> /\ isidx = <<>> /\ lastae = <<>> /\ s7 = {} /\ vrep = <<>> /\ rlast = <<>> /\ pgr = <<>> /\ bad = {}
+  /\ finals = <<>> /\ healed = FALSE /\ s5 = FALSE /\ hl = NoHealthy /\ fsmc = <<>> /\ taken = {} /\ sopen = <<>> /\ isidx = <<>> /\ lastae = <<>> /\ s7 = {} /\ vrep = <<>> /\ rlast = <<>> /\ rtime = <<>> /\ pgr = <<>> /\ bad = {}
 
 Next ==
   /\ l <= Len(Trace)
@@ -863,6 +874,7 @@ Next ==
   /\ healed' = (IF Is("scenario") THEN FALSE ELSE IF Is("heal") THEN TRUE ELSE healed)
   /\ vrep' = NextVrep
   /\ rlast' = NextRlast
+  /\ rtime' = (IF Is("scenario") THEN <<>> ELSE IF Is("reply") /\ Ev.kind \in {"ae", "is"} THEN Put(rtime, <<Ev.from, Ev.to>>, Ev.t) ELSE rtime)
   /\ pgr' = NextPgr
   /\ s5' = (IF Is("scenario") THEN FALSE ELSE s5 \/ KF_S5)
   /\ hl' = NextHl
